@@ -193,6 +193,9 @@ def c_obs(o) -> str:
 
 
 # ---- files with annotated / excluded definitions -------------------------------------------------------
+OTHER_DECORATORS = ["@HOOKS['audit']", "@functools.wraps(len)", "@plain_deco", "@(lambda f: f)", "@registry.hooks[0].wrap", "@HOOKS['a'] | HOOKS['b']"]
+
+
 def gen_file(rng: random.Random):
     """A module with functions, classes (with a static method), lambdas; random annotations; an exclusion pattern."""
     defs, lines = [], ["from rattr import rattr_ignore, rattr_results", ""]
@@ -210,6 +213,9 @@ def gen_file(rng: random.Random):
                 kw = rng.choice([[("gets", LIST(S("p.x")))], [("gets", SET(NUM))], [("calls", LIST(TUP(S("f"))))], [("reads", SET(S("p")))], [("gets", SET(BAD("name")))]])
             results = ([], kw)
         decos = (["@rattr_ignore"] if ignore else []) + ([deco_src(*results)] if results else [])
+        # decorators that are not rattr annotations (not even nameable ones), above / between / below the annotations
+        for _ in range(rng.choice([0, 0, 1, 1, 2])):
+            decos.insert(rng.randint(0, len(decos)), rng.choice(OTHER_DECORATORS))
         if kind == "func":
             lines += decos + [f"def {name}(p, q=None):", f"    return p.body_of_{name}", ""]
             defs.append((name, "DFunc", ignore, results))
@@ -285,6 +291,15 @@ def e2e_programs():
             ann = deco_src([], kw) + "\n" + mid_plain
             eq = "def mid(p, q):\n" + equiv
             out.append((f"results[{name}]/{where}", files(ann), files(eq), [], ["top"] + (["mid"] if where == "target" else []), None))
+            if name == "all_kinds":
+                # the same declaration under / above decorators that are no rattr annotations
+                hooks = "HOOKS = {}\n\ndef plain_deco(f):\n    return f\n\n"
+                for pos, ann2 in (("below a subscript decorator", "@HOOKS['audit']\n" + deco_src([], kw) + "\n" + mid_plain),
+                                  ("above a name decorator", deco_src([], kw) + "\n@plain_deco\n" + mid_plain),
+                                  ("between two decorators", "@HOOKS['a'] | HOOKS['b']\n" + deco_src([], kw) + "\n@plain_deco\n" + mid_plain)):
+                    out.append((f"results[{name} {pos}]/{where}", files(hooks + ann2), files(hooks + eq), [], ["top"] + (["mid"] if where == "target" else []), None))
+                out.append((f"ignore below a subscript decorator/{where}", files(hooks + "@HOOKS['audit']\n@rattr_ignore\n" + mid_plain),
+                            files("MID_REMOVED = 1\n") if where == "target" else removed, [], ["top"], None))
         # a class declared by rattr_results / ignored
         cls_real = "class Box:\n    def __init__(self, p, q):\n        self.held = p.real_init\n"
         cls_user = "def top(a, b):\n    box = Box(a, b)\n    return a.top_own\n"
@@ -414,6 +429,13 @@ def main(tier: str) -> int:
         V.violation({"property": PROP, "why": "malformed rattr_results arguments end in a Python exception instead of the fatal diagnostic", **m})
     for m in f_crash[:2]:
         V.violation({"property": PROP, "why": "FileAnalyser raised on an annotated file", **m})
+    # a file whose fate (fatal or not) differs from the specification's: wf_annotation decides which declarations are malformed
+    f_accept = [m for c, m in zip(fcodes, fmeta) if (c & 1) and (c & 8) and not m["fatal"] and not m["crash"]]
+    f_reject = [m for c, m in zip(fcodes, fmeta) if (c & 1) and not (c & 8) and m["fatal"]]
+    for m in f_accept[:2]:
+        V.violation({"property": PROP, "why": "a file with a malformed rattr_results declaration (wf_annotation in coq/proofs/C11Proofs.v) was analysed without the fatal diagnostic", **m})
+    for m in f_reject[:2]:
+        V.violation({"property": PROP, "why": "a file whose rattr_results declarations are all well formed ended in the fatal diagnostic", **m})
     for m in f_spec[:3]:
         V.violation({"property": PROP, "why": "an ignored / excluded function or class has an IR entry (it would be a key of the results)", **m})
     for m in e_new[:3]:
